@@ -22,7 +22,10 @@ def gen_trace(seed, world, tier):
     R = sub_rng(seed, "C19")
     n = R.randint(1, 6 if tier == "quick" else 8)
     fam = R.choice(["herm_pos", "herm_neg", "herm_mixed", "herm_mixed", "general", "general_int"])
-    scale = R.choice([0, 0, 0, -6, 6, -3, 3])
+    scale = R.choice([0, 0, 0, 0, -6, 6, -3, 3, -12, 12, -9])
+    # reducible Hermitian matrices (diagonal / block diagonal, dominant eigenvector away from
+    # e_1): a start vector that is not random in every component never reaches it
+    shape = R.choice(["dense", "dense", "dense", "diag", "blockdiag"]) if n >= 2 else "dense"
     s = R.randrange(10 ** 6)
     lam = None
     if fam.startswith("herm"):
@@ -37,7 +40,20 @@ def gen_trace(seed, world, tier):
             lam = [R.choice([1, -1]) * l1] + rest
             if n >= 2:
                 lam[1] = -math.copysign(round_sig(0.8 * l1, 4), lam[0])   # opposite sign at the gap limit
-        A = {"gen": "herm", "n": n, "lam": lam, "seed": s}
+        if shape == "diag":
+            order = list(range(1, n))
+            R.shuffle(order)
+            pos = R.randint(1, n - 1)              # dominant eigenvalue NOT in position 0
+            vals = [lam[j] for j in order]
+            vals.insert(pos, lam[0])
+            A = {"gen": "diagq", "vals": [float(v) for v in vals]}
+        elif shape == "blockdiag":
+            k1 = R.randint(1, n - 1)
+            A = {"gen": "blockdiag", "blocks": [
+                {"gen": "herm", "n": k1, "lam": lam[1:k1 + 1], "seed": s},
+                {"gen": "herm", "n": n - k1, "lam": [lam[0]] + lam[k1 + 1:], "seed": s + 1}]}
+        else:
+            A = {"gen": "herm", "n": n, "lam": lam, "seed": s}
     elif fam == "general":
         A = {"gen": "gauss", "m": n, "n": n, "seed": s}
     else:
@@ -57,7 +73,8 @@ def gen_trace(seed, world, tier):
               "eigenvalue_format": R.choice(["complex", "quaternion"])}
         if R.random() < 0.2:
             kw["block_purify"] = False
-    tags = {"routine": routine, "family": fam, "n": n, "scale": scale, "lam": lam, "budget": kw["max_iterations"]}
+    tags = {"routine": routine, "family": fam, "n": n, "scale": scale, "lam": lam, "budget": kw["max_iterations"],
+            "shape": shape if fam.startswith("herm") else "dense"}
     steps = [{"k": "rng", "op": "seed", "v": R.randrange(10 ** 6), "client": 0}]
     for _ in range(R.randint(0, 2)):
         if R.random() < 0.7:
